@@ -142,8 +142,9 @@ package regulator
 //@   ensures [C09] SHEETSTEP(r)
 //@   loop 1 invariant WFR(r) && r.tableCount >= old(r.tableCount) && r.status != CompetitionStatus_Pending && len(r.waitingQueue) <= old(len(r.waitingQueue))
 //@   loop 1 invariant old(JINV(r)) ==> JINV(r)
-//@   -- what is known about the water level in the first iteration (it is recomputed without a clamp afterwards)
+//@   -- the water level never exceeds the table maximum: by arithmetic in the first iteration, by the clamp afterwards
 //@   loop 1 invariant r.tableCount == old(r.tableCount) && r.tableCount < requiredTables ==> waterLevel <= r.maxPlayersPerTable
+//@   loop 1 invariant r.tableCount > old(r.tableCount) ==> waterLevel <= r.maxPlayersPerTable
 //@   loop 1 invariant r.tableCount == old(r.tableCount) ==> len(r.waitingQueue) == old(len(r.waitingQueue))
 //@   loop 1 invariant r.tableCount == 0 ==> old(r.tableCount) == 0 && r.playerCount >= r.minInitialPlayers
 //@   loop 1 invariant old(r.tableCount) == 0 && r.tableCount < requiredTables && waterLevel >= r.minInitialPlayers ==> waterLevel <= len(r.waitingQueue)
